@@ -59,20 +59,16 @@ fn xhash(x: &[f64]) -> String {
 
 // ------------------------------------------------------------------ the call under test
 pub struct CallOut { pub panic: bool, pub ok: bool, pub k: i64 }
-fn call(s: &Sys, kind: &str, itol: usize, x: &mut Vec<f64>, budget: usize, tol: f64) -> CallOut {
-    let mut trip = s.trip.clone();
-    let n = s.n;
-    let bv = Vector::create(s.b.clone());
+/// one solver call on a live Sparse object (the object is not rebuilt: internal state, if any, carries over)
+fn call_on(a: &Sparse<f64>, b: &[f64], kind: &str, itol: usize, x: &mut Vec<f64>, budget: usize, tol: f64) -> CallOut {
+    let bv = Vector::create(b.to_vec());
     let mut xv = Vector::create(x.clone());
-    let r = guarded(|| {
-        let a = Sparse::<f64>::from_triplets(n, n, &mut trip);
-        match kind {
-            "cg" => a.solve_cg(&bv, &mut xv, budget, tol),
-            "bicg" => a.solve_bicg(&bv, &mut xv, budget, tol, itol),
-            "bicgstab" => a.solve_bicgstab(&bv, &mut xv, budget, tol),
-            "qmr" => a.solve_qmr(&bv, &mut xv, budget, tol),
-            other => { eprintln!("TOOL-ERROR unknown solver kind {}", other); std::process::exit(2) }
-        }
+    let r = guarded(|| match kind {
+        "cg" => a.solve_cg(&bv, &mut xv, budget, tol),
+        "bicg" => a.solve_bicg(&bv, &mut xv, budget, tol, itol),
+        "bicgstab" => a.solve_bicgstab(&bv, &mut xv, budget, tol),
+        "qmr" => a.solve_qmr(&bv, &mut xv, budget, tol),
+        other => { eprintln!("TOOL-ERROR unknown solver kind {}", other); std::process::exit(2) }
     });
     *x = xv.vec.clone();
     match r {
@@ -81,6 +77,16 @@ fn call(s: &Sys, kind: &str, itol: usize, x: &mut Vec<f64>, budget: usize, tol: 
         Err(_) => CallOut { panic: true, ok: false, k: 0 },
     }
 }
+/// one solver call on a matrix freshly assembled from the triplets
+fn call(s: &Sys, kind: &str, itol: usize, x: &mut Vec<f64>, budget: usize, tol: f64) -> CallOut {
+    let mut trip = s.trip.clone();
+    let n = s.n;
+    match guarded(|| Sparse::<f64>::from_triplets(n, n, &mut trip)) {
+        Ok(a) => call_on(&a, &s.b, kind, itol, x, budget, tol),
+        Err(_) => CallOut { panic: true, ok: false, k: 0 },
+    }
+}
+type Runner<'a> = &'a mut dyn FnMut(&mut Vec<f64>, usize) -> CallOut;
 
 // ------------------------------------------------------------------ systems
 fn sgn(rng: &mut StdRng) -> f64 { if rng.gen_bool(0.5) { 1.0 } else { -1.0 } }
@@ -123,16 +129,79 @@ fn cond_bounds(n: usize, t: &[(usize, usize, f64)], spd: bool) -> (f64, f64) {
     let (d, r, c) = gersh(n, t);
     let up = 1.0 + 1e-9;
     let lo = (0..n).map(|i| d[i].abs() - r[i] * up).fold(f64::INFINITY, f64::min);
-    if !(lo > 0.0) { return (0.0, 0.0); }
+    let loc0 = (0..n).map(|i| d[i].abs() - c[i] * up).fold(f64::INFINITY, f64::min);
+    if !(lo > 0.0) && (spd || !(loc0 > 0.0)) { return (0.0, 0.0); }
     if spd {
         let hi = (0..n).map(|i| d[i] + r[i] * up).fold(0.0, f64::max);
         (hi / lo * up, up / lo)
     } else {
+        // row dominance bounds ||A^-1||_inf <= 1/lo_r, column dominance ||A^-1||_1 <= 1/lo_c; ||M||_2 <= sqrt(||M||_1 ||M||_inf)
+        // and ||M||_2 <= sqrt(n) ||M||_inf, sqrt(n) ||M||_1
         let ninf = (0..n).map(|i| d[i].abs() + r[i] * up).fold(0.0, f64::max);
         let n1 = (0..n).map(|i| d[i].abs() + c[i] * up).fold(0.0, f64::max);
-        let ainv = (n as f64).sqrt() / lo * up;
+        let loc = (0..n).map(|i| d[i].abs() - c[i] * up).fold(f64::INFINITY, f64::min);
+        let sn = (n as f64).sqrt();
+        let ainv = if lo > 0.0 && loc > 0.0 { up / (lo * loc).sqrt() } else if lo > 0.0 { sn / lo * up } else { sn / loc * up };
         ((ninf * n1).sqrt() * ainv * up, ainv)
     }
+}
+/// condition bounds of a dense matrix: SPD (symmetric, positive diagonal, Gershgorin) when it applies, else dominance
+fn cond_dense(a: &[Vec<f64>]) -> (f64, f64, bool) {
+    let n = a.len();
+    let mut t = vec![]; for i in 0..n { for j in 0..n { if a[i][j] != 0.0 { t.push((i, j, a[i][j])); } } }
+    let sym = (0..n).all(|i| (0..n).all(|j| a[i][j] == a[j][i])) && (0..n).all(|i| a[i][i] > 0.0);
+    if sym { let (k, ai) = cond_bounds(n, &t, true); if k > 0.0 { return (k, ai, true); } }
+    let (k, ai) = cond_bounds(n, &t, false);
+    (k, ai, false)
+}
+fn trip_of(a: &[Vec<f64>]) -> Vec<(usize, usize, f64)> {
+    let n = a.len(); let mut t = vec![]; for i in 0..n { for j in 0..n { if a[i][j] != 0.0 { t.push((i, j, a[i][j])); } } } t
+}
+
+/// Structured small-integer systems (C08 implication only): matrices on which the Krylov recurrences hit EXACT
+/// breakdowns (rho, xi, delta, epsilon, omega, p.q exactly zero) - triangular / block triangular, rows or columns
+/// holding only the diagonal entry, diag(+1,-1,..), skew, permutations, nilpotent shifts, singular blocks - with
+/// right-hand sides e_k, e_i + e_j, ones, A e_k.  Fields: st (shape), n, seed, rhs ("ek" | "e2" | "ones" | "aek"), rk, rk2,
+/// guess ("zero" | "int").
+pub const SHAPES: [&str; 14] = ["upper", "lower", "upper_bi", "blocktri", "rowdiag", "coldiag", "pm", "pm_off", "skew", "perm", "nilshift", "shift_plus", "singblock", "arrow_lower"];
+fn build_struct(case: &Value) -> Sys {
+    let n = getu(case, "n"); let st = gets(case, "st");
+    let mut rng = rng(geti(case, "seed") as u64, 11); let rng = &mut rng;
+    let mut a = vec![vec![0.0f64; n]; n];
+    let small = |rng: &mut StdRng| -> f64 { sgn(rng) * rng.gen_range(1..=3) as f64 };
+    let diag = |rng: &mut StdRng| -> f64 { rng.gen_range(2..=5) as f64 };
+    match st {
+        "upper" => { for i in 0..n { a[i][i] = diag(rng); for j in i + 1..n { if rng.gen_bool(0.7) { a[i][j] = small(rng); } } } }
+        "lower" => { for i in 0..n { a[i][i] = diag(rng); for j in 0..i { if rng.gen_bool(0.7) { a[i][j] = small(rng); } } } }
+        "upper_bi" => { for i in 0..n { a[i][i] = diag(rng); if i + 1 < n { a[i][i + 1] = small(rng); } } }
+        "blocktri" => { let h = (n / 2).max(1); for i in 0..n { for j in 0..n { if (i < h) == (j < h) || i < h { if i == j { a[i][j] = diag(rng) + 4.0; } else if rng.gen_bool(0.8) { a[i][j] = small(rng); } } } } }
+        // a full dominant matrix in which row k (resp. column k) holds only its diagonal entry
+        "rowdiag" | "coldiag" => { let k = rng.gen_range(0..n);
+            for i in 0..n { for j in 0..n { a[i][j] = if i == j { 3.0 * n as f64 + diag(rng) } else if rng.gen_bool(0.8) { small(rng) } else { 0.0 }; } }
+            for t in 0..n { if t != k { if st == "rowdiag" { a[k][t] = 0.0; } else { a[t][k] = 0.0; } } }
+            if n > 1 { let t = (k + 1) % n; if st == "rowdiag" { a[t][k] = small(rng); } else { a[k][t] = small(rng); } } }
+        "pm" => { let sc = rng.gen_range(1..=4) as f64; for i in 0..n { a[i][i] = if i % 2 == 0 { sc } else { -sc }; } }
+        "pm_off" => { for i in 0..n { a[i][i] = if i % 2 == 0 { 1.0 } else { -1.0 } * rng.gen_range(1..=3) as f64; if i + 1 < n { let v = small(rng); a[i][i + 1] = v; a[i + 1][i] = v; } } }
+        "skew" => { for i in 0..n { for j in i + 1..n { if rng.gen_bool(0.7) { let v = small(rng); a[i][j] = v; a[j][i] = -v; } } if rng.gen_bool(0.3) { a[i][i] = 1.0; } } }
+        "perm" => { let mut p: Vec<usize> = (0..n).collect(); if rng.gen_bool(0.5) { p.rotate_left(1); } else { p.shuffle(rng); } for i in 0..n { a[i][p[i]] = if rng.gen_bool(0.5) { 1.0 } else { small(rng) }; } }
+        "nilshift" => { for i in 0..n.saturating_sub(1) { a[i][i + 1] = 1.0; } }
+        "shift_plus" => { let d = [0.0, 1.0, 2.0, -1.0][rng.gen_range(0..4)]; for i in 0..n { a[i][i] = d; a[i][(i + 1) % n] += if rng.gen_bool(0.5) { 1.0 } else { -1.0 }; } }
+        "singblock" => { for i in 0..n { a[i][i] = diag(rng); } let i = rng.gen_range(0..n); let j = (i + 1) % n; let v = small(rng); a[i][i] = v; a[i][j] = v; a[j][i] = v; a[j][j] = v; }
+        "arrow_lower" => { for i in 0..n { a[i][i] = diag(rng); a[i][0] = if i == 0 { a[0][0] } else { small(rng) }; } }
+        other => { eprintln!("TOOL-ERROR unknown structured shape {}", other); std::process::exit(2) }
+    }
+    if rng.gen_bool(0.3) { let e = 2f64.powi(rng.gen_range(-6..=6)); for r in a.iter_mut() { for v in r.iter_mut() { *v *= e; } } }
+    let mut trip = trip_of(&a); order_triplets(rng, &mut trip);
+    let (rk, rk2) = (getu(case, "rk") % n, getu(case, "rk2") % n);
+    let unit = |k: usize| -> Vec<f64> { (0..n).map(|i| if i == k { 1.0 } else { 0.0 }).collect() };
+    let b: Vec<f64> = match gets(case, "rhs") {
+        "ek" => unit(rk),
+        "e2" => { let mut v = unit(rk); v[rk2] += if rk2 == rk { 0.0 } else { 1.0 }; v }
+        "ones" => vec![1.0; n],
+        _ => matvec_dense(&a, &unit(rk)),
+    };
+    let x0: Vec<f64> = if gets(case, "guess") == "zero" { vec![0.0; n] } else { (0..n).map(|_| rng.gen_range(-2..=2) as f64).collect() };
+    Sys { n, trip, b, x0, kap: 0.0, ainv: 0.0, xref: None }
 }
 
 pub fn build(case: &Value) -> Sys {
@@ -148,6 +217,7 @@ pub fn build(case: &Value) -> Sys {
         return Sys { n, trip, b, x0, kap, ainv, xref };
     }
     let fam = gets(case, "fam").to_string();
+    if fam == "struct" { return build_struct(case); }
     let n = getu(case, "n");
     let mut rng = rng(geti(case, "seed") as u64, 7);
     let rng = &mut rng;
@@ -180,6 +250,37 @@ pub fn build(case: &Value) -> Sys {
             let sc = if rng.gen_bool(0.5) { 1.0 } else { pow10(rng, -3.0, 3.0) };
             for i in 0..n { trip.push((i, i, d[i] * sc)); }
             for &(i, j) in &q { trip.push((i, j, sgn(rng) * rng.gen_range(0.2..=1.0) * th * d[i].abs() / deg[i] as f64 * sc)); }
+        }
+        // nonsymmetric (mostly) strictly dominant matrices whose row sums equal their column sums, or whose pattern is symmetric
+        // while the values are not: circulants, D + constant-weight cyclic shifts, D + weighted permutations, skew part + dominant
+        // diagonal, symmetric-pattern / nonsymmetric-values; one symmetric (SPD) circulant sub-family for CG
+        "rcs" => {
+            claim = true;
+            let mut a = vec![vec![0.0f64; n]; n];
+            let th = rng.gen_range(0.05..=0.4);
+            let sub = if n < 3 { 3 } else { geti(case, "sub") % 7 };
+            let mixed = sub != 6 && rng.gen_bool(0.3);
+            let dconst = rng.gen_range(1.0..=10.0);
+            let d: Vec<f64> = (0..n).map(|_| (if matches!(sub, 0 | 5 | 6) { dconst } else { rng.gen_range(1.0..=10.0) }) * if mixed && !matches!(sub, 0 | 5) { sgn(rng) } else { 1.0 }).collect();
+            let dmin = d.iter().fold(f64::INFINITY, |m, v| m.min(v.abs()));
+            let nw = rng.gen_range(1..=3usize);
+            let fr: Vec<f64> = { let v: Vec<f64> = (0..nw).map(|_| rng.gen_range(0.2..=1.0)).collect(); let t: f64 = v.iter().sum(); v.iter().map(|x| x / t).collect() };
+            let mut deg = vec![0usize; n]; for &(i, j) in &pat { deg[i] += 1; deg[j] += 1; }
+            match sub {
+                0 | 1 => { for t in 0..nw { let sh = rng.gen_range(1..n); let w = sgn(rng) * fr[t] * th * dmin; for i in 0..n { a[i][(i + sh) % n] += w; } } }
+                2 => { for t in 0..nw { let mut p: Vec<usize> = (0..n).collect(); p.shuffle(rng); let w = sgn(rng) * fr[t] * th * dmin; for i in 0..n { if p[i] != i { a[i][p[i]] += w; } } } }
+                3 => { for &(i, j) in &pat { a[i][j] = sgn(rng) * rng.gen_range(0.2..=1.0) * th * d[i].abs() / deg[i] as f64; a[j][i] = sgn(rng) * rng.gen_range(0.2..=1.0) * th * d[j].abs() / deg[j] as f64; } }
+                4 => { for &(i, j) in &pat { let v = sgn(rng) * rng.gen_range(0.2..=1.0) * th * (d[i].abs() / deg[i] as f64).min(d[j].abs() / deg[j] as f64); a[i][j] = v; a[j][i] = -v; } }
+                5 => { for t in 0..nw { let sh = rng.gen_range(1..n); let w = sgn(rng) * fr[t] * th * dmin / 2.0; for i in 0..n { a[i][(i + sh) % n] += w; a[(i + sh) % n][i] -= w; } } }
+                _ => { for t in 0..nw { let sh = rng.gen_range(1..n); let w = sgn(rng) * fr[t] * th * dmin / 2.0; for i in 0..n { a[i][(i + sh) % n] += w; a[(i + sh) % n][i] += w; } } }
+            }
+            // a permutation with a fixed point (sub 2) was skipped there, so the row/column sums of the off-diagonal part stay equal only
+            // up to those entries; the diagonal carries the rest
+            let sc = if rng.gen_bool(0.5) { 1.0 } else { pow10(rng, -3.0, 3.0) };
+            for i in 0..n { a[i][i] += d[i]; for j in 0..n { a[i][j] *= sc; } }
+            if sub == 6 { for i in 0..n { for j in 0..i { a[i][j] = a[j][i]; } } }     // exactly symmetric (the sums above may differ by an ulp)
+            spd = (0..n).all(|i| a[i][i] > 0.0 && (0..n).all(|j| a[i][j] == a[j][i]));
+            trip = trip_of(&a);
         }
         // integer-valued (times a power of two) dominant systems with an integer solution: A x* = b holds exactly in f64
         "spdi" | "ddi" => {
@@ -280,11 +381,11 @@ fn base_event(case: &Value, op: &str, s: &Sys) -> Value {
            "fam": if case.get("A").is_some() { "tlc2x2" } else { gets(case, "fam") }, "guess": gets(case, "guess"), "tole": geti(&case["tol"], "e")})
 }
 
-fn exec_c08(case: &Value, s: &Sys, out: &mut Out) {
-    let kind = gets(case, "kind"); let itol = getu(case, "itol"); let tol = tol_of(case); let budget = getu(case, "budget");
+fn exec_c08(case: &Value, s: &Sys, run: Runner, out: &mut Out) {
+    let tol = tol_of(case); let budget = getu(case, "budget");
     let a = dense_of(s);
     let mut x = s.x0.clone();
-    let r = call(s, kind, itol, &mut x, budget, tol);
+    let r = run(&mut x, budget);
     let fin = all_finite(&x);
     let mut e = base_event(case, "solve", s);
     e["budget"] = json!(budget.min(SAT as usize)); e["panic"] = json!(r.panic); e["ok"] = json!(r.ok); e["k"] = json!(r.k);
@@ -298,7 +399,7 @@ fn exec_c08(case: &Value, s: &Sys, out: &mut Out) {
         let mut oks = vec![]; let mut ks = vec![]; let mut xhk = String::new();
         for j in 1..=kk {
             let mut xj = s.x0.clone();
-            let rj = call(s, kind, itol, &mut xj, j, tol);
+            let rj = run(&mut xj, j);
             oks.push(rj.ok); ks.push(rj.k);
             if all_finite(&xj) { maxx = maxx.max(norm2_dd(&xj)); } else { maxx = f64::INFINITY; }
             if j == kk { xhk = xhash(&xj); }
@@ -318,12 +419,12 @@ fn exec_c08(case: &Value, s: &Sys, out: &mut Out) {
     if let Some(p) = pe { out.ev(p); }
 }
 
-fn exec_c09(case: &Value, s: &Sys, out: &mut Out) {
-    let kind = gets(case, "kind"); let itol = getu(case, "itol"); let tol = tol_of(case); let budget = getu(case, "budget");
+fn exec_c09(case: &Value, s: &Sys, run: Runner, out: &mut Out) {
+    let kind = gets(case, "kind"); let tol = tol_of(case); let budget = getu(case, "budget");
     let a = dense_of(s);
     let n = s.n;
     let mut x = s.x0.clone();
-    let r = call(s, kind, itol, &mut x, budget, tol);
+    let r = run(&mut x, budget);
     let fin = all_finite(&x);
     let bzero = s.b.iter().all(|v| *v == 0.0); let gzero = s.x0.iter().all(|v| *v == 0.0);
     if gets(case, "guess") == "exact" && !bzero {
@@ -367,12 +468,72 @@ fn exec_c09(case: &Value, s: &Sys, out: &mut Out) {
         for (j, xj_exact) in its.iter().enumerate() {
             let want: Vec<f64> = xj_exact.as_array().unwrap().iter().map(|q| rat_from(q).to_f64()).collect();
             let mut xj = s.x0.clone();
-            let _ = call(s, kind, itol, &mut xj, j + 1, tol);
+            let _ = run(&mut xj, j + 1);
             let d: Vec<f64> = (0..n).map(|i| xj[i] - want[i]).collect();
             let mut ie = base_event(case, "iter", s);
             ie["j"] = json!(j + 1); ie["kx"] = json!(its.len());
             ie["iter_units"] = json!(if all_finite(&xj) { units(norm2_dd(&d), 1e-12 * norm2_dd(&want).max(1.0)) } else { SAT });
             out.ev(ie);
+        }
+    }
+}
+
+// ------------------------------------------------------------------ sequences on one Sparse object
+/// One Sparse object lives through: round 0 (products and/or solves), then per round one in-place mutation
+/// (insert overwriting an existing diagonal / off-diagonal entry, insert of a new entry, scale, re-binding to transpose())
+/// followed by a solve with every applicable solver.  The dense matrix is tracked here independently from the
+/// operations and every solve is judged against the CURRENT dense matrix with the usual C08 / C09 guards.
+fn exec_seq(case: &Value, out: &mut Out) {
+    let s0 = build(case);
+    let n = s0.n;
+    let c09 = gets(case, "mode") == "seq09";
+    let mut dense = dense_of(&s0);
+    let mut trip = s0.trip.clone();
+    let mut live = match guarded(|| Sparse::<f64>::from_triplets(n, n, &mut trip)) { Ok(a) => a, Err(_) => { eprintln!("TOOL-ERROR from_triplets panicked on a generated system"); std::process::exit(2) } };
+    let mut rng = rng(geti(case, "seed") as u64, 12); let rng = &mut rng;
+    let symmetric = (0..n).all(|i| (0..n).all(|j| dense[i][j] == dense[j][i]));
+    let muts: Vec<String> = case["muts"].as_array().unwrap().iter().map(|m| m.as_str().unwrap().to_string()).collect();
+    for round in 0..=muts.len() {
+        if round > 0 {
+            let mut m = muts[round - 1].as_str();
+            let offs: Vec<(usize, usize)> = (0..n).flat_map(|i| (0..n).map(move |j| (i, j))).filter(|&(i, j)| i != j && dense[i][j] != 0.0).collect();
+            let zeros: Vec<(usize, usize)> = (0..n).flat_map(|i| (0..n).map(move |j| (i, j))).filter(|&(i, j)| i != j && dense[i][j] == 0.0 && dense[j][i] == 0.0).collect();
+            if m == "over_off" && offs.is_empty() { m = "over_diag"; }
+            if m == "new" && zeros.is_empty() { m = "over_diag"; }
+            let slack = |a: &Vec<Vec<f64>>, i: usize| -> f64 { a[i][i].abs() - (0..n).filter(|&j| j != i).map(|j| a[i][j].abs()).sum::<f64>() };
+            match m {
+                "over_diag" => { let i = rng.gen_range(0..n); let v = dense[i][i] * rng.gen_range(1.5..=3.0); let _ = guarded(|| live.insert(i, i, v)); dense[i][i] = v; }
+                "over_off" => { let (i, j) = offs[rng.gen_range(0..offs.len())]; let v = dense[i][j] * rng.gen_range(-0.9..=0.9);
+                    let _ = guarded(|| live.insert(i, j, v)); dense[i][j] = v;
+                    if symmetric { let _ = guarded(|| live.insert(j, i, v)); dense[j][i] = v; } }
+                "new" => { let (i, j) = zeros[rng.gen_range(0..zeros.len())]; let v = sgn(rng) * rng.gen_range(0.1..=0.4) * slack(&dense, i).min(slack(&dense, j)).max(0.0);
+                    let _ = guarded(|| live.insert(i, j, v)); dense[i][j] = v;
+                    if symmetric { let _ = guarded(|| live.insert(j, i, v)); dense[j][i] = v; } }
+                "scale" => { let f = rng.gen_range(0.25..=4.0); let _ = guarded(|| live.scale(&f)); for r in dense.iter_mut() { for v in r.iter_mut() { *v *= f; } } }
+                "transpose" => { if let Ok(t) = guarded(|| live.transpose()) { live = t; } let old = dense.clone(); for i in 0..n { for j in 0..n { dense[i][j] = old[j][i]; } } }
+                other => { eprintln!("TOOL-ERROR unknown mutator {}", other); std::process::exit(2) }
+            }
+        } else if gets(case, "warm") == "mul" {
+            // round 0 as products only: A x and A^T x on the live object, no solve
+            let v = Vector::create((0..n).map(|_| rng.gen_range(-1.0..=1.0)).collect());
+            let _ = guarded(|| { let _ = live.multiply(&v); let _ = live.transpose_multiply(&v); });
+            continue;
+        }
+        let (kap, ainv, spd) = cond_dense(&dense);
+        let scale = 10f64.powi(geti(case, "rhs_e") as i32);
+        let xstar: Vec<f64> = (0..n).map(|_| rng.gen_range(-1.0..=1.0) * scale).collect();
+        let b = matvec_dense(&dense, &xstar);
+        for (kind, itol) in KINDS {
+            if kind == "cg" && !spd { continue; }
+            let guess = if rng.gen_bool(0.5) { "zero" } else { "random" };
+            let x0: Vec<f64> = if guess == "zero" { vec![0.0; n] } else { (0..n).map(|_| rng.gen_range(-1.0..=1.0) * scale).collect() };
+            let cur = Sys { n, trip: trip_of(&dense), b: b.clone(), x0, kap, ainv, xref: None };
+            let tol = rand_tol(rng, 3, 11);
+            let budget = if c09 { 2000 } else { [n, 2 * n, 1000, 1000][rng.gen_range(0..4)] };
+            let sc = json!({"cid": geti(case, "cid"), "kind": kind, "itol": itol, "tol": tol, "budget": budget, "guess": guess, "fam": gets(case, "fam"), "mode": gets(case, "mode")});
+            let tolf = tol_of(&sc);
+            let mut run = |x: &mut Vec<f64>, bud: usize| call_on(&live, &b, kind, itol as usize, x, bud, tolf);
+            if c09 { exec_c09(&sc, &cur, &mut run, out); } else { exec_c08(&sc, &cur, &mut run, out); }
         }
     }
 }
@@ -395,11 +556,15 @@ fn dump(case: &Value, s: &Sys) {
 }
 
 pub fn exec(case: &Value, out: &mut Out) {
+    if gets(case, "mode").starts_with("seq") { return exec_seq(case, out); }
     let s = build(case);
     if std::env::var("KRYLOV_DUMP").is_ok() { dump(case, &s); }
+    let (kind, itol, tol) = (gets(case, "kind").to_string(), getu(case, "itol"), tol_of(case));
+    let mut run = |x: &mut Vec<f64>, budget: usize| call(&s, &kind, itol, x, budget, tol);
     match gets(case, "mode") {
-        "c08" => exec_c08(case, &s, out),
-        "c09" => exec_c09(case, &s, out),
+        "c08" => exec_c08(case, &s, &mut run, out),
+        "c09" => exec_c09(case, &s, &mut run, out),
+        "seq08" | "seq09" => exec_seq(case, out),
         m => { eprintln!("TOOL-ERROR unknown krylov mode {}", m); std::process::exit(2) }
     }
 }
@@ -434,8 +599,43 @@ fn gen_c08(quick: bool, rng: &mut StdRng, push: &mut dyn FnMut(Value)) {
     }
 }
 
+/// structured breakdown-prone systems: every shape x orders 2..5 (+ one larger) x right-hand sides e_k (every k), e_i + e_j, ones,
+/// A e_k x every solver variant; budgets >= 2
+fn gen_struct(quick: bool, rng: &mut StdRng, push: &mut dyn FnMut(Value)) {
+    for rep in 0..(if quick { 1 } else { 6 }) {
+        for st in SHAPES {
+            let big = rng.gen_range(6..=10usize);
+            for n in [2usize, 3, 4, 5, big] {
+                let mut rhss: Vec<(&str, usize, usize)> = (0..n).map(|k| ("ek", k, 0)).collect();
+                rhss.push(("e2", rng.gen_range(0..n), rng.gen_range(0..n))); rhss.push(("ones", 0, 0)); rhss.push(("aek", rng.gen_range(0..n), 0));
+                let seed = rng.gen_range(0..1i64 << 30);      // one matrix per (shape, n): every right-hand side and solver sees the same A
+                for (rhs, rk, rk2) in rhss {
+                    for (kind, itol) in KINDS {
+                        let budget = [2, n.max(2), 2 * n, 1000][rng.gen_range(0..4)];
+                        let guess = if rng.gen_range(0..3) == 0 { "int" } else { "zero" };
+                        push(json!({"mode": "c08", "fam": "struct", "st": st, "n": n, "seed": if rep == 0 || rng.gen_bool(0.5) { seed } else { rng.gen_range(0..1i64 << 30) },
+                                    "kind": kind, "itol": itol, "budget": budget, "tol": rand_tol(rng, 2, 12), "rhs": rhs, "rk": rk, "rk2": rk2, "guess": guess}));
+                    }
+                }
+            }
+        }
+    }
+}
+
+/// sequences on one Sparse object (mode seq08 / seq09): two in-place mutations, all solvers after each
+fn gen_seq(quick: bool, mode: &str, rng: &mut StdRng, push: &mut dyn FnMut(Value)) {
+    let muts = ["over_diag", "over_off", "new", "scale", "transpose"];
+    let fams = ["spd", "dd", "rcs"];
+    for i in 0..(if quick { 120 } else { 1500 }) {
+        let n = if i % 2 == 0 { rng.gen_range(3..=8usize) } else { rng.gen_range(3..=40usize) };
+        push(json!({"mode": mode, "fam": fams[i % 3], "sub": rng.gen_range(0..7), "n": n, "seed": rng.gen_range(0..1i64 << 30), "warm": if i % 4 == 3 { "mul" } else { "solve" },
+                    "muts": [muts[i % 5], muts[(i / 5 + i) % 5]], "rhs": "ax", "rhs_e": rng.gen_range(-8..=8), "guess": "zero",
+                    "kind": "bicg", "itol": 1, "budget": 2000, "tol": {"m": 1, "e": 8}}));
+    }
+}
+
 fn gen_c09(quick: bool, rng: &mut StdRng, push: &mut dyn FnMut(Value)) {
-    let fams = ["spd", "dd", "spd3", "spdi", "ddi"];
+    let fams = ["spd", "dd", "spd3", "spdi", "ddi", "rcs"];
     let ncases = if quick { 5000 } else { 50000 };
     for i in 0..ncases {
         let fam = fams[i % fams.len()];
@@ -443,12 +643,16 @@ fn gen_c09(quick: bool, rng: &mut StdRng, push: &mut dyn FnMut(Value)) {
         // CG only on SPD systems; the other solvers on every family (SPD = D + S with theta < 1 is strictly dominant too)
         let (kind, itol) = if spd { KINDS[(i / fams.len()) % 5] } else { KINDS[1 + (i / fams.len()) % 4] };
         let n = if i % 4 == 3 { rng.gen_range(1..=6usize) } else { 1 + (i / (fams.len() * 5)) % 60 };
+        // equal row/column-sum family: order >= 3; sub-family 6 is the symmetric (SPD) circulant, the only one CG is run on
+        let sub = rng.gen_range(0..7i64);
+        let n = if fam == "rcs" { n.max(3) } else { n };
+        let (kind, itol) = if fam == "rcs" { if sub == 6 { KINDS[(i / fams.len()) % 5] } else { KINDS[1 + (i / fams.len()) % 4] } } else { (kind, itol) };
         let int = fam.ends_with('i');
         let rhs = if rng.gen_range(0..10) == 0 { "zero" } else if rng.gen_bool(0.5) { "rand" } else { "ax" };
         // the integer families serve the exact-guess / zero-start clauses only: on integer data BiCG and QMR can hit an
         // exact Lanczos breakdown (probability zero on real-valued data), which is not what the convergence clause is about
         let guess = if int { "exact" } else { ["zero", "random"][rng.gen_range(0..2)] };
-        push(json!({"mode": "c09", "fam": fam, "n": n, "seed": rng.gen_range(0..1i64 << 30), "kind": kind, "itol": itol, "budget": 2000,
+        push(json!({"mode": "c09", "fam": fam, "sub": sub, "n": n, "seed": rng.gen_range(0..1i64 << 30), "kind": kind, "itol": itol, "budget": 2000,
                     "tol": rand_tol(rng, 3, 12), "rhs": rhs, "rhs_e": rhs_exp(rng), "guess": guess}));
     }
 }
@@ -460,7 +664,7 @@ pub fn gen(tier: &str, seed: u64, out: &mut Out) {
     let mut cid = 0i64;
     let mut cases: Vec<Value> = vec![];
     { let mut push = |mut c: Value| { cid += 1; c["cid"] = json!(cid); c["suite"] = json!("krylov"); cases.push(c); };
-      if mode != "c09" { let mut r = rng(seed, 8); gen_c08(quick, &mut r, &mut push); }
-      if mode != "c08" { let mut r = rng(seed, 9); gen_c09(quick, &mut r, &mut push); } }
+      if mode != "c09" { let mut r = rng(seed, 8); gen_c08(quick, &mut r, &mut push); gen_struct(quick, &mut r, &mut push); gen_seq(quick, "seq08", &mut r, &mut push); }
+      if mode != "c08" { let mut r = rng(seed, 9); gen_c09(quick, &mut r, &mut push); gen_seq(quick, "seq09", &mut r, &mut push); } }
     for c in &cases { out.raw(c); }
 }
